@@ -150,7 +150,7 @@ enum Op {
   OP_CPLX_FROM_TNX32_SIMPLE, OP_CPLX_TO_TNX32_SIMPLE,
   OP_R4_MUL_SIMPLE, OP_R4_ADDMUL_SIMPLE, OP_R4_FROM_CPLX_SIMPLE, OP_R4_TO_CPLX_SIMPLE,
   // object life cycle through the library allocator (C11 conservation; results unused)
-  OP_LIFE_MODULE, OP_LIFE_DFT, OP_LIFE_BIG, OP_LIFE_PPOL, OP_LIFE_PMAT, OP_LIFE_TABLE, OP_LIFE_ALLOC, OP_LIFE_FFT_BUFFERS, OP_LIFE_MODULE_PAIR,
+  OP_LIFE_MODULE, OP_LIFE_DFT, OP_LIFE_BIG, OP_LIFE_PPOL, OP_LIFE_PMAT, OP_LIFE_TABLE, OP_LIFE_ALLOC, OP_LIFE_FFT_BUFFERS, OP_LIFE_MODULE_PAIR, OP_LIFE_MODULE_SEQ,
   OP_NOPS
 };
 
@@ -191,7 +191,7 @@ struct Program {
 };
 
 // ---------------------------------------------------------------------------------------------- inputs
-enum { PAT_RANDOM = 0, PAT_ALLMAX, PAT_ALTERNATING, PAT_SPARSE, PAT_ZERO, PAT_SINGLE, PAT_MIXED, PAT_INT64_EDGE, PAT_NPAT };
+enum { PAT_RANDOM = 0, PAT_ALLMAX, PAT_ALTERNATING, PAT_SPARSE, PAT_ZERO, PAT_SINGLE, PAT_MIXED, PAT_INT64_EDGE, PAT_CARRY, PAT_NPAT };
 /** deterministic integer input: element idx of a value described by (pattern,bits,dseed,nnz) */
 int64_t input_value(int pattern, int bits, uint64_t dseed, int nnz, uint64_t total, uint64_t idx);
 
